@@ -75,6 +75,20 @@ ALL_KW = [False]
 def check_url(ctx, m, u, rng, classes):
     if not parseable(u):
         ctx.count("unparseable-not-judged")
+        # ... except for this: when the standard parser sees NO host at all in the string as ural reads it (documented protocol
+        # pattern, 'http://' assumed otherwise), the URL-level functions have no host to report and the getters must not invent one
+        cu = re.sub(r"[\x00-\x1f\x7f-\x9f]", "", u).strip()
+        try:
+            hostless = not urlsplit(cu if PROTO_RE.match(cu) else "http://" + cu).hostname
+        except ValueError:
+            hostless = False
+        if hostless:
+            ctx.count("hostless-input-judged")
+            for name, fn in (("get_normalized_hostname", m.get_normalized_hostname), ("get_fingerprinted_hostname", m.get_fingerprinted_hostname), ("get_hostname", m.ural.get_hostname)):
+                a = call(fn, u)
+                ctx.ev()
+                if a not in (None, "") and not isinstance(a, tuple):
+                    ctx.viol("C07:%s:host-invented-for-a-hostless-input" % name, {"fn": name, "url": u}, {"helper": a})
         return
     for c in classes:
         ctx.count("input-" + c)
@@ -241,6 +255,7 @@ DIRECTED_URLS = ["\x00http://example.com", "\x01\x02 http://www.example.com/x", 
                  "git://www.example.com/repo.git", "ssh://fr.example.com/x", "ftp://m.example.co.uk/a/", "wss://www.example.com:443/s", "custom://amp.example.com/x", "rtmp://WWW.Example.COM/live",
                  "http://www.x.co.uk.fr/a", "http://fr.shop.com.au.com/x?b=1", "http://a.com/?url=HTTP://B.com", "http://a.com/?URL=HTTPS%3A%2F%2FWWW.B.ORG%2FX", "HTTP://A.COM/?NEXT=/HOME", "a.fr/login?next=/home",
                  "http://a.com/?u\nrl=http%3A%2F%2Fb.org%2Fp", "http://l.example.com/l.php?u=\r\nhttps%3A%2F%2Fb.org%2Fx", "http://cdn.ampproject\x00.org/c/s/b.com/p", "http://a.com/r?url=ht\ttp://b.org/", "http://www.google.com/u\x85rl?q=http://b.org",
+                 "://www.lemonde.fr/path", ":///x", "://", "http://[::ffff:192.0.2.1]/x", "http://[64:ff9b::192.0.2.33]:8080/a?b=1", "[::ffff:1.2.3.4]:80/x", "http://r.example.net/out?url=http%3A%2F%2F%5B%3A%3Affff%3A192.0.2.1%5D%2Fx",
                  "http://xn--amp--epa.fr/x", "http://straße.de/Straße?ß=ẞ", "straße.de", "http://r.example.net/out?url=http%3A%2F%2Fstra%C3%9Fe.de%2Fx", "http://ΟΔΌΣ.GR/ΟΔΌΣ", "οδός.gr/x", "http://amp-é.fr/x", "httpbin.org/get", "https.example.org/x", "http2.golang.org", "httpd.apache.org/docs?x=1", "ftp.example.org/x", "HTTP.example.org", "www.example.co.uk/page?src=ftp://files.example.org/x", "example.com?x=1", "example.com#f"]
 DIRECTED_HOSTS = ["fr.facebook.com", "fr-FR.facebook.com", "www.lemonde.fr", "m.example.co.uk", "amp-x.example.com", "amp.example.com", "xn--tlrama-bvab.fr", "TÉLÉRAMA.fr", " Example.COM ",
                   "fr.example.com.au", "de.co.uk", "co.uk", "com", "us.fr.example.com", "www.fr.example.com", "fr.www.example.com", "en-us.example.com", "localhost", "1.2.3.4", "forum-m.example.com",
